@@ -222,6 +222,22 @@ func parseContractFile(path, pkgPath string) (*ContractFile, error) {
 			last = nil
 		case "loop":
 			f := strings.Fields(rest)
+			if len(f) >= 2 && f[1] == "frame" {
+				// loop N frame [except H ...]: cells that exist when the loop is entered keep their content
+				n, err := strconv.Atoi(f[0])
+				if err != nil {
+					return nil, fmt.Errorf("%s:%d: loop ordinal: %v", path, ln+1, err)
+				}
+				cl := &Clause{Kind: "loopframe", Loop: n, Line: ln + 1}
+				for _, x := range f[2:] {
+					if x != "except" {
+						cl.Text += " " + x
+					}
+				}
+				cur.Clauses = append(cur.Clauses, cl)
+				last = nil
+				continue
+			}
 			if len(f) < 3 {
 				return nil, fmt.Errorf("%s:%d: loop N invariant|decreases e", path, ln+1)
 			}
@@ -280,6 +296,9 @@ func parseContractFile(path, pkgPath string) (*ContractFile, error) {
 	// parse expressions
 	for _, c := range cf.Contracts {
 		for _, cl := range c.Clauses {
+			if cl.Kind == "loopframe" {
+				continue
+			}
 			if cl.Kind == "modifies" {
 				if strings.TrimSpace(cl.Text) == "nothing" {
 					continue
